@@ -2,6 +2,7 @@ package main
 
 import (
 	"fmt"
+	"go/constant"
 	"go/token"
 	"go/types"
 	"sort"
@@ -126,13 +127,13 @@ func (w *World) validatedPositive(pkg, field string) (bool, string) {
 			return false, "validated without the positive flag at " + pos[field]
 		}
 	}
-	// explicit comparison: not (p.F <= 0) / p.F == 0 -> error
-	for _, ii := range w.ifs(fn) {
-		p := ii.pred
-		if (p.Op == "EQL" || p.Op == "LSS") && ((p.A != nil && p.A.Has("field:Params."+field)) || (p.B != nil && p.B.Has("field:Params."+field))) {
-			if (p.A != nil && p.A.Has("const:0")) || (p.B != nil && p.B.Has("const:0")) {
-				return true, w.Pos(ifOf(ii.b).Cond.Pos())
-			}
+	// explicit comparison: the edge on which p.F <= 0 (or p.F == 0) holds leads only to returns of a non-nil error
+	for _, c := range []Cond{
+		{Op: "LSS", A: []string{"const:0"}, B: []string{"field:Params." + field}, Want: true},
+		{Op: "EQL", A: []string{"field:Params." + field}, B: []string{"const:0"}, Want: false},
+	} {
+		if ok, where := w.failingEdgeOnlyFails(fn, c); ok {
+			return true, where
 		}
 	}
 	return false, "no positivity check of " + field + " in " + pkg + ".Params.Validate"
@@ -145,39 +146,8 @@ func (w *World) validatedAtMost100(pkg, field string) (bool, string) {
 	}
 	c := Cond{Op: "LSS", A: []string{"const:100"}, B: []string{"field:Params." + field}, Want: false}
 	// the edge on which field > 100 leads only to returns of a non-nil error
-	for _, ii := range w.ifs(fn) {
-		matched, passOnTrue := c.Match(ii.pred)
-		if !matched {
-			continue
-		}
-		fail := ii.b.Succs[0]
-		if passOnTrue {
-			fail = ii.b.Succs[1]
-		}
-		seen := map[*ssa.BasicBlock]bool{}
-		ok := true
-		nret := 0
-		var walk func(b *ssa.BasicBlock)
-		walk = func(b *ssa.BasicBlock) {
-			if seen[b] {
-				return
-			}
-			seen[b] = true
-			if len(b.Succs) == 0 {
-				nret++
-				if !returnsNonNilError(b) && !blockPanics(b) {
-					ok = false
-				}
-				return
-			}
-			for _, s := range b.Succs {
-				walk(s)
-			}
-		}
-		walk(fail)
-		if ok && nret > 0 {
-			return true, w.Pos(ifOf(ii.b).Cond.Pos())
-		}
+	if ok, where := w.failingEdgeOnlyFails(fn, c); ok {
+		return true, where
 	}
 	return false, "Params.Validate of " + pkg + " accepts " + field + " > 100"
 }
@@ -211,4 +181,55 @@ func (r *Report) ParamSafety(key string, roots []*ssa.Function, minUses int) {
 			r.Bad(k, d, u.Pos, what+" but "+det+": an accepted parameter value halts block processing")
 		}
 	}
+}
+
+// failingEdgeOnlyFails: some branch of fn is an instance of c, and every path from its failing edge ends in a return
+// of a non-nil error or a panic. Branches on a constant condition follow the constant (a helper inlined with a
+// literal flag argument).
+func (w *World) failingEdgeOnlyFails(fn *ssa.Function, c Cond) (bool, string) {
+	for _, ii := range w.ifs(fn) {
+		matched, passOnTrue := c.Match(ii.pred)
+		if !matched {
+			continue
+		}
+		fail := ii.b.Succs[0]
+		if passOnTrue {
+			fail = ii.b.Succs[1]
+		}
+		seen := map[*ssa.BasicBlock]bool{}
+		ok := true
+		nret := 0
+		var walk func(b *ssa.BasicBlock)
+		walk = func(b *ssa.BasicBlock) {
+			if seen[b] {
+				return
+			}
+			seen[b] = true
+			if len(b.Succs) == 0 {
+				nret++
+				if !returnsNonNilError(b) && !blockPanics(b) {
+					ok = false
+				}
+				return
+			}
+			if ifi := ifOf(b); ifi != nil && len(b.Succs) == 2 {
+				if cv, isConst := ifi.Cond.(*ssa.Const); isConst && cv.Value != nil && cv.Value.Kind() == constant.Bool {
+					if constant.BoolVal(cv.Value) {
+						walk(b.Succs[0])
+					} else {
+						walk(b.Succs[1])
+					}
+					return
+				}
+			}
+			for _, s := range b.Succs {
+				walk(s)
+			}
+		}
+		walk(fail)
+		if ok && nret > 0 {
+			return true, w.Pos(ifOf(ii.b).Cond.Pos())
+		}
+	}
+	return false, ""
 }
